@@ -1,4 +1,5 @@
 import KafVerif.Lemmas.GroupEffect
+import KafVerif.Props.C15
 /-!
 C43 — Group members expire exactly when their session lapses.
 
@@ -270,7 +271,7 @@ theorem _root_.KafVerif.C43.no_early_expiry_pass (ops : List Op) (g : Nat) (st :
 /-- **C43 (every accepted heartbeat refreshes the session).** A heartbeat that is answered NONE or
 REBALANCE_IN_PROGRESS (i.e. accepted as coming from a member of the current generation — also while
 the group is rebalancing) leaves the member with `lastHeartbeat = now`. -/
-theorem _root_.KafVerif.C43.contact_refreshes (s s' : State) (g mid gen : Nat) (c : Int)
+theorem _root_.KafVerif.C43.contact_refreshes (s s' : State) (g mid : Nat) (gen : Int) (c : Int)
     (h : heartbeat fixed s g mid gen = (s', .code c)) (hc : c = NONE ∨ c = REBALANCE_IN_PROGRESS) :
     ∃ st mem, lookup s'.groups g = some st ∧ lookup st.members mid = some mem ∧ mem.lastHb = s.clock := by
   unfold heartbeat at h
@@ -343,6 +344,78 @@ theorem _root_.KafVerif.C43.join_refreshes (s s' : State) (g mid : Nat) (se rb :
     refine ⟨mem, ?_, by rw [← hme]; exact hmem, by rw [hhb, hclock]⟩
     rw [← hs]
     simp [persist_groups, setGroup, lookup_insert]
+
+/-! ### across a coordinator failover -/
+
+/-- **C43 (the persisted heartbeat is current).** After every history without injected store faults, the
+store holds for every loaded group exactly its current image — in particular every member's persisted
+`HeartbeatAt` is its in-memory `lastHeartbeat` (each accepted heartbeat is written through). -/
+theorem _root_.KafVerif.C43.persisted_heartbeat_current (ops : List Op) (hff : FaultFree ops) (g : Nat) (st : Group)
+    (h : lookup (run init ops).groups g = some st) :
+    ∃ p, lookup (run init ops).persisted g = some p ∧
+      p.members.map (fun e => (e.1, e.2.hbAt, e.2.sessionMs)) = st.members.map (fun e => (e.1, e.2.lastHb, e.2.session)) := by
+  refine ⟨build st, (sn_run ops hff).synced g st h, ?_⟩
+  unfold build
+  simp [List.map_map, Function.comp_def]
+
+/-- the member records a new coordinator restores carry the last heartbeat and session timeout the old one had -/
+theorem _root_.KafVerif.C43.heartbeat_survives_failover (ops : List Op) (hff : FaultFree ops) (g mid : Nat) (st : Group) (m : Member)
+    (h : lookup (run init ops).groups g = some st) (hm : lookup st.members mid = some m) :
+    ∃ r m', lookup (run init (ops ++ [.failover, .load g])).groups g = some r ∧ lookup r.members mid = some m' ∧
+      m'.lastHb = m.lastHb ∧ m'.session = m.session ∧ r.phase = st.phase ∧
+      (st.phase = .stable → r.deadline = 0) := by
+  have hw : WFN st := (sn_run ops hff).inv.1 (g, st) (lookup_some_mem h)
+  have hmem : (restore fixed (build st) (run init ops).clock).members =
+      st.members.map fun e => (e.1, { e.2 with joinGen := if st.phase = .preparing then 0 else st.gen }) := by
+    unfold restore
+    simp only [ensureLeader_members, build, List.map_map, Function.comp_def]
+    apply List.map_congr_left
+    intro e he
+    have := hw.wf.session e he
+    simp [this, fixed]
+  refine ⟨restore fixed (build st) (run init ops).clock, { m with joinGen := if st.phase = .preparing then 0 else st.gen },
+    failover_load_lookup ops hff g st h, ?_, rfl, rfl, ?_, ?_⟩
+  · rw [hmem, lookup_map_val, hm]; rfl
+  · unfold restore; simp [build]
+  · intro hph
+    unfold restore
+    simp [build, hph]
+
+/-- **C43 (no early expiry across a failover).** After any history without injected store faults: take a
+Stable group and a member whose last accepted contact is `lastHeartbeat`.  Replace the coordinator
+(`failover`), let the new one load the group, let `d` ms pass and run the cleanup pass: if
+`now + d − lastHeartbeat ≤ sessionTimeout` the member is still a member — a member that kept heartbeating
+within its session timeout is not expired because the coordinator moved. -/
+theorem _root_.KafVerif.C43.no_early_expiry_across_failover (ops : List Op) (hff : FaultFree ops) (g mid : Nat) (st : Group)
+    (m : Member) (d : Nat) (h : lookup (run init ops).groups g = some st) (hph : st.phase = .stable)
+    (hm : lookup st.members mid = some m) (hlive : (run init ops).clock + d - m.lastHb ≤ sessionOf m) :
+    ∃ st', lookup (run init (ops ++ [.failover, .load g, .tick d, .cleanup])).groups g = some st' ∧
+      ∃ e' ∈ st'.members, e'.1 = mid ∧ e'.2.lastHb = m.lastHb := by
+  obtain ⟨r, m', hr, hm', hhb, hse, _, hdl⟩ := KafVerif.C43.heartbeat_survives_failover ops hff g mid st m h hm
+  have hsplit : ops ++ [.failover, .load g, .tick d, .cleanup] = (ops ++ [.failover, .load g] ++ [.tick d]) ++ [.cleanup] := by simp
+  have hclock2 : (run init (ops ++ [.failover, .load g])).clock = (run init ops).clock := by
+    have : run init (ops ++ [.failover, .load g]) = (step (step (run init ops) .failover).1 (.load g)).1 := by
+      unfold run; rw [List.foldl_append]; rfl
+    rw [this]
+    simp only [step, stepV]
+    split
+    · rfl
+    · rename_i s1 o hl; exact (loadGroup_frame hl).clock
+  have hrun3 : run init (ops ++ [.failover, .load g] ++ [.tick d]) =
+      { run init (ops ++ [.failover, .load g]) with clock := (run init (ops ++ [.failover, .load g])).clock + d } := by
+    unfold run; rw [List.foldl_append]; rfl
+  have hgroups3 : lookup (run init (ops ++ [.failover, .load g] ++ [.tick d])).groups g = some r := by rw [hrun3]; exact hr
+  have hclock3 : (run init (ops ++ [.failover, .load g] ++ [.tick d])).clock = (run init ops).clock + d := by
+    rw [hrun3, ← hclock2]
+  have hsess : sessionOf m' = sessionOf m := by unfold sessionOf; rw [hse]
+  obtain ⟨st', hst', e', he', hk, hl⟩ := KafVerif.C43.no_early_expiry_pass (ops ++ [.failover, .load g] ++ [.tick d]) g r (mid, m')
+    hgroups3 (lookup_some_mem hm') (by rw [hclock3, hhb, hsess]; exact hlive) (Or.inl (hdl hph))
+  refine ⟨st', ?_, e', he', hk, by rw [hl, hhb]⟩
+  rw [hsplit]
+  have : run init (ops ++ [.failover, .load g] ++ [.tick d] ++ [.cleanup]) =
+      (step (run init (ops ++ [.failover, .load g] ++ [.tick d])) .cleanup).1 := by
+    unfold run; rw [List.foldl_append]; rfl
+  rw [this]; exact hst'
 
 /-- **C43 (pre-fix defect, witness).** Before the fix a member with a 10 s session that heartbeats
 7 s after its join (answered REBALANCE_IN_PROGRESS: the leader has not synced yet) is expired by
